@@ -48,6 +48,21 @@ func InstallRealLogger() {
 	syslog.SetLogger(Logger)
 }
 
+// silent: like quiet, but Panic/Panicf do not panic (a log level above Panic): duplicate
+// registrations are then dropped silently by the registry.
+type silent struct{ quiet }
+
+func (silent) Level(syslog.Lv) syslog.Logger { return silent{} }
+func (silent) Pref(any) syslog.Logger        { return silent{} }
+func (silent) Panic(v ...any)                {}
+func (silent) Panicf(f string, v ...any)     {}
+
+// InstallSilentLogger: must be the first thing a process does with syslog (prefix loggers are cached).
+func InstallSilentLogger() {
+	Logger = silent{}
+	syslog.SetLogger(Logger)
+}
+
 // InstallQuietLogger must be called before anything else touches syslog (prefix loggers are
 // cached with the logger they were derived from).
 func InstallQuietLogger() { syslog.SetLogger(Quiet) }
